@@ -285,19 +285,42 @@ def uploadName (cfg : Cfg) (m : Manifest) (kvn : String) (c : Cert) : String :=
 def withEntry (m : Manifest) (kvn name : String) : Manifest :=
   if (lookup m.entries kvn).isNone then { m with entries := m.entries ++ [(kvn, name)] } else m
 
-/-- go: gcsca.upload — writes the object, then appends the entry to the (cached) manifest when the
-    key version is new. -/
+/-- go: gcsca.otherKeyVersionOf — the manifest records the object `name` for a key version other than
+    `kvn` (every entry is looked at, also one shadowed by an earlier entry of the same key version) -/
+def heldByOther (m : Manifest) (name kvn : String) : Bool :=
+  m.entries.any fun e => e.2 == name && e.1 != kvn
+
+/-- go: gcsca.upload — an object the manifest records for another key version is refused before any
+    storage call; otherwise the object is written, then the entry is appended to the (cached) manifest
+    when the key version is new.  (keep_going off: the refusal of an existing object that was left
+    unwritten is the `throw` of `writeIfAllowed`.) -/
 def upload (cfg : Cfg) (kvn : String) (c : Cert) : Run Unit := do
   let s ← getSt
-  let _ ← writeIfAllowed cfg (uploadName cfg (s.cache.getD Manifest.empty) kvn c) (.der c)
-  modSt fun s => { s with cache := some (withEntry (s.cache.getD Manifest.empty) kvn
-    (uploadName cfg (s.cache.getD Manifest.empty) kvn c)) }
+  if heldByOther (s.cache.getD Manifest.empty) (uploadName cfg (s.cache.getD Manifest.empty) kvn c) kvn then throw
+  else do
+    let _ ← writeIfAllowed cfg (uploadName cfg (s.cache.getD Manifest.empty) kvn c) (.der c)
+    modSt fun s => { s with cache := some (withEntry (s.cache.getD Manifest.empty) kvn
+      (uploadName cfg (s.cache.getD Manifest.empty) kvn c)) }
 
 def uploadAll (cfg : Cfg) : List (String × Cert) → Run Unit
   | [] => pure ()
   | (k, c) :: t => do
     upload cfg k c
     uploadAll cfg t
+
+/-- gcsca.upload BEFORE the fix that added the refusal: whatever object the name resolves to is written
+    (kept for the witness `C10_old_upload_clobbers_primary`). -/
+def uploadNoGuard (cfg : Cfg) (kvn : String) (c : Cert) : Run Unit := do
+  let s ← getSt
+  let _ ← writeIfAllowed cfg (uploadName cfg (s.cache.getD Manifest.empty) kvn c) (.der c)
+  modSt fun s => { s with cache := some (withEntry (s.cache.getD Manifest.empty) kvn
+    (uploadName cfg (s.cache.getD Manifest.empty) kvn c)) }
+
+def uploadAllNoGuard (cfg : Cfg) : List (String × Cert) → Run Unit
+  | [] => pure ()
+  | (k, c) :: t => do
+    uploadNoGuard cfg k c
+    uploadAllNoGuard cfg t
 
 /-- go: gcsca.writeManifest -/
 def writeManifest : Run Unit := do
@@ -326,6 +349,16 @@ def gcsFinalize (cfg : Cfg) (mu : Mut) (order : List (String × Cert)) : Run Uni
   let m ← getManifest
   modSt fun s => { s with cache := some (applyPrimaries mu m) }
   uploadAll cfg order
+  (match mu.rootCert with
+    | some rc => do let _ ← writeIfAllowed cfg cfg.rootPath (.pem rc); pure ()
+    | none => pure ())
+  if decide (applyPrimaries mu m ≠ m) || !order.isEmpty then writeManifest else pure ()
+
+/-- gcsca.Finalize over the upload of before the fix -/
+def gcsFinalizeNoGuard (cfg : Cfg) (mu : Mut) (order : List (String × Cert)) : Run Unit := do
+  let m ← getManifest
+  modSt fun s => { s with cache := some (applyPrimaries mu m) }
+  uploadAllNoGuard cfg order
   (match mu.rootCert with
     | some rc => do let _ ← writeIfAllowed cfg cfg.rootPath (.pem rc); pure ()
     | none => pure ())
@@ -406,6 +439,11 @@ def mutSetRootCert (cfg : Cfg) (mu : Mut) (c : Cert) : Run Mut :=
 def caFinalize (cfg : Cfg) (mu : Mut) (order : List (String × Cert)) : Run Unit :=
   wrap .caFin (match cfg.ca with
     | .gcsca => gcsFinalize cfg mu order
+    | .memca => pure ())
+
+def caFinalizeNoGuard (cfg : Cfg) (mu : Mut) (order : List (String × Cert)) : Run Unit :=
+  wrap .caFin (match cfg.ca with
+    | .gcsca => gcsFinalizeNoGuard cfg mu order
     | .memca => pure ())
 
 /-! ### signer -/
